@@ -99,7 +99,9 @@ def case_filter(rnd):
     truth2 = {i: rnd.random() < 0.6 for i in ALL + ['zz']}
     which = rnd.choice(['pred-one', 'pred-two', 'pred-id', 'keep', 'drop', 'stacked'])
     # predicates see field VALUES; the value of image for id i is the string $s001('i')
-    sympool.TABLE['t001'] = lambda image: truth[image.split("'")[1]]
+    truth_b = {i: rnd.random() < 0.5 for i in ALL + ['zz']}
+    # the value of image in a second dataset (used below) is $s005('i'): the predicate then follows another table
+    sympool.TABLE['t001'] = lambda image: (truth_b if image.startswith('$s005(') else truth)[image.split("'")[1]]
     def both(mask, image):
         # the predicate is bound to the fields by argument NAME: each argument must carry the value of its own field
         assert image.startswith('$s001(') and mask.startswith('$s002('), (mask, image)
@@ -146,6 +148,23 @@ def case_filter(rnd):
     except BaseException as e:  # noqa
         rec['build_exc'] = cls_name(e)
         return rec
+    # the same layer OBJECTS connected to a second dataset afterwards: they must follow the dataset they are connected to
+    if which in ('pred-one', 'keep', 'drop'):
+        ids2 = rnd.sample(ALL, rnd.randint(1, 6))
+        try:
+            chain2 = source(ids2, {'image': 's005', 'mask': 's002'})
+            for b in built:
+                chain2 = chain2 >> b
+            got2 = list(chain2.ids)
+        except BaseException as e:  # noqa
+            got2 = 'ERR:' + cls_name(e)
+        if which == 'pred-one':
+            want2 = [i for i in ids2 if truth_b[i]]
+        elif which == 'keep':
+            want2 = [i for i in ids2 if i in rec['sel']]
+        else:
+            want2 = [i for i in ids2 if i not in rec['sel']]
+        rec['reuse'] = {'ids2': ids2, 'got': got2, 'want': want2}
     rows = []
     for i in ids:
         for f in fields:
@@ -287,9 +306,11 @@ def case_group(rnd):
 # ------------------------------------------------------------------------------------------------ Split
 def case_split(rnd):
     from connectome import Split
-    ids = sorted(rnd.sample(ALL, rnd.randint(1, 5)))
+    ids = rnd.sample(ALL, rnd.randint(1, 5))          # deliberately not sorted
     collide = rnd.random() < 0.2
     parts = {i: [(f'{i}-{j}' if not (collide and j == 0 and i == ids[-1] and len(ids) > 1) else f'{ids[0]}-0', f'part{j}') for j in range(rnd.randint(0, 3))] for i in ALL}
+    for i in ALL:
+        rnd.shuffle(parts[i])                         # __split__ may yield the parts in any order
     counts = collections.Counter()
 
     def split_fn(id):
